@@ -241,7 +241,11 @@ class Host(_Endpoint):
             w._creating = self
             try:
                 if self.layout == "default" and not self.unicast:
-                    self.azc = AsyncZeroconf(interfaces=InterfaceChoice.Default)
+                    if len(self.ips) > 1:
+                        # one dual-stack socket (AF_INET6, V6ONLY off) in both groups
+                        self.azc = AsyncZeroconf(interfaces=InterfaceChoice.Default, ip_version=IPVersion.All)
+                    else:
+                        self.azc = AsyncZeroconf(interfaces=InterfaceChoice.Default)
                 else:
                     self.azc = AsyncZeroconf(interfaces=list(self.ips), unicast=self.unicast)
             finally:
